@@ -119,6 +119,15 @@ def gen_plan(ch: Chooser, tier: str) -> dict[str, Any]:
             if life == 60:
                 actions.append({'t': round(t + ch.choice([2.0, 8.0]), 6), 'do': 'peer-clear', 'identity': 'rival',
                                 'kind': pk, 'ns': ns})
+        if not clusterwide and ch.bool(0.5):
+            # a namespace (or the optional kind) goes away right when the pause begins: its watchers are cancelled by
+            # the orchestrator while they are re-connecting and already told to pause
+            victim = ch.choice([n for n in live_ns if n != 'default'] or ['other'])
+            dt = ch.choice([-0.02, -0.004, 0.002, 0.01])
+            if victim in live_ns:
+                live_ns.remove(victim)
+                actions.append({'t': round(max(0.5, t + dt), 6), 'do': 'ns-delete', 'name': victim})
+                actions[:] = [a for a in actions if not (a.get('ns') == victim and a['t'] >= t + dt and a['do'] != 'ns-delete')]
         if not clusterwide:
             # mandatory peering needs its object in every served namespace, also in those created later
             for a in list(actions):
